@@ -129,7 +129,7 @@ def redId (x : Nat) : Nat := x % r
 def diffId (toId fromId : Nat) : Nat := (redId toId + r - redId fromId) % r
 
 /-- `adjust_nondelegable(sk, parent, from, to)`: for every free slot of the parent. -/
-def adjustNdLoop : List (Nat × G1) → List Attr → List Attr → G1 → List (Nat × G1) → G1 × List (Nat × G1)
+def adjustNdLoop (toOmitAll : Bool) : List (Nat × G1) → List Attr → List Attr → G1 → List (Nat × G1) → G1 × List (Nat × G1)
   | [], _, _, a0, b => (a0, b.reverse)
   | (idx, hexp) :: ps, from_, to_, a0, b =>
     let from' := from_.dropWhile (·.idx < idx)
@@ -146,11 +146,11 @@ def adjustNdLoop : List (Nat × G1) → List Attr → List Attr → G1 → List 
       | true, false => o1.add a0 (o1.smul (diffId 0 ((fromE.map (·.id)).getD 0)) hexp)
       | false, true => o1.add a0 (o1.smul ((toE.map (·.id)).getD 0) hexp)
       | false, false => a0
-    let b' := if toE.isNone then (idx, hexp) :: b else b
-    adjustNdLoop ps from' to' a0' b'
+    let b' := if toE.isNone && !toOmitAll then (idx, hexp) :: b else b
+    adjustNdLoop toOmitAll ps from' to' a0' b'
 
 def adjustNondelegable (sk parent : SecretKey G1 G2) (from_ to_ : AttrList) : SecretKey G1 G2 :=
-  let (a0, b) := adjustNdLoop o1 parent.b from_.attrs to_.attrs sk.a0 []
+  let (a0, b) := adjustNdLoop o1 to_.omitAll parent.b from_.attrs to_.attrs sk.a0 []
   { sk with a0 := a0, b := b }
 
 /-- `precompute`. -/
